@@ -1868,6 +1868,11 @@ impl TypeLayout {
             return None;
         }
 
+        // ... and `a ?= nil` is that assignment for the literal: it stores nil and is false
+        if matches!(op, Op::Unwrap) && matches!(lhs, Optional(Some(..))) && matches!(other, Optional(None)) {
+            return Some(TypeLayout::Native(NativeType::Bool));
+        }
+
         if matches!(op, Eq | Neq) && lhs == other && lhs.supports_equ() {
             return Some(TypeLayout::Native(NativeType::Bool));
         }
